@@ -78,6 +78,17 @@ def run(ctx):
         for p in pl:
             for cls, content in contents(ctx.quick):
                 cases.append((w, p, cls, content))
+    # the same pairs on a message an application got from the factory: decode, replace the data value by another one of
+    # the same length (it contains the separator), encode, decode (top-level pairs; content classes of moderate size)
+    nrep = 0
+    # (pairs whose data tag is not the length tag + 1 already fail on any separator in the content: recorded finding)
+    elig = [c for c in cases if len(c[1][2]) == 0 and 3 <= len(c[3]) <= 300 and b"\x00" not in c[3] and c[1][4] == c[1][3] + 1]
+    rng.shuffle(elig)
+    for (w, p, cls, content) in elig[:40 if ctx.quick else 600]:
+        if True:
+            cases.append((w, p, cls + "+replaced_after_decode", content))
+            nrep += 1
+    ctx.extra["replaced_after_decode_cases"] = nrep
     cmds, wants = [], []
     for n, (w, (mt, where, path, lt, dt, nxt), cls, content) in enumerate(cases):
         s = dc.stock(w)
@@ -89,8 +100,14 @@ def run(ctx):
         t = dc.gen_members(s, s.trailer, rng, skip=(10,), **kw)
         if where != "header":
             h = [x for x in h if x[0] not in (90, 91, 212, 213)] if lt not in (90, 212) else h
-        cmds.append(("d%d" % n, dc.enc_cmd("d%d" % n, w, mt, h, b, t)))
-        wants.append(dc.flat_nodes(s, [(35, mt.encode(), None)] + h, b, t))
+        if cls.endswith("+replaced_after_decode"):
+            newc = (b"r\x01=p" * (len(content) // 4 + 1))[:len(content)]
+            cmds.append(("d%d" % n, dc.enc_cmd("d%d" % n, w, mt, h, b, t, replace=[(dt, newc)])))
+            sub = lambda nodes: [(tg, (newc if tg == dt else v), el) for tg, v, el in nodes]
+            wants.append(dc.flat_nodes(s, [(35, mt.encode(), None)] + sub(h), sub(b), sub(t)))
+        else:
+            cmds.append(("d%d" % n, dc.enc_cmd("d%d" % n, w, mt, h, b, t)))
+            wants.append(dc.flat_nodes(s, [(35, mt.encode(), None)] + h, b, t))
     res = dc.run_cmds(ctx, cmds)
     ctx.tick("probe")
     execs = []
@@ -98,7 +115,10 @@ def run(ctx):
         s = dc.stock(w)
         evs = res.get("d%d" % n) or []
         enc = next((e for e in evs if e["e"] == "Encode"), None)
-        dec = next((e for e in evs if e["e"] == "Decode"), None)
+        dec = next((e for e in evs if e["e"] == ("Decode2" if cls.endswith("+replaced_after_decode") else "Decode")), None)
+        if cls.endswith("+replaced_after_decode") and dec is None and not any(e["e"] == "Abort" for e in evs):
+            rp = next((e for e in evs if e["e"] == "Replace"), None)
+            dec = {"e": "Decode2", "res": (rp or {}).get("res", "f8exc")}       # the replace / second encode threw
         ab = next((e for e in evs if e["e"] == "Abort"), None)
         b_res = "ok" if enc and enc.get("b_res") == "ok" else ("abort" if enc is None else "exc")
         enc_res = ("ok" if enc.get("res") == "ok" else "exc") if enc and b_res == "ok" else ("abort" if ab else "none")
